@@ -88,7 +88,7 @@ PROPERTIES = {
         "min_obligations": 1200,
     },
     "C13": {
-        "contracts": [dataset.DatasetSetItem, dataset.DatasetDelItem, dataset.DatasetRelabel],
+        "contracts": [dataset.DatasetSetItem, dataset.DatasetDelItem, dataset.DatasetRelabel, dataset.DatasetConstruct],
         "level": "proof",
         "min_obligations": 4000,
     },
